@@ -660,3 +660,128 @@ def _(ctx):
 def _input_enum(ctx, name):
     """value of Gm2_cmd_line_options::E_input_type::<name> (declared in src/gm2calc.cpp as enum E_input_type { SLHA, GM2Calc, THDM })"""
     return {'SLHA': 0, 'GM2Calc': 1, 'THDM': 2}[name]
+
+# ------------------------------------------------------------------------------------------------ the verbose flag changes what is printed on std::cerr and nothing else
+# "for the selected loop order, resummation and running-coupling flags": the verbose flag is not among the things the reported number may depend on (the 480 combinations of the
+# quantifier include verbose on/off).  Non-interference by effect inference: every statement guarded by the verbose flag is a VERBOSE(...) log statement whose message has no
+# assignment and calls only const members / pure helpers, with no control transfer out of the guarded block -- for every function of the library and the program.
+def replay_verbose(model, wd):
+    """the real program on the shipped non-converging SLHA point (Cha(1) pole mass 900 GeV), all five output formats, loop orders 0..2: stdout with verbose output off and on"""
+    from gm2v import native
+    from gm2v.world import REPO
+    import subprocess, os, re
+    exe = native.build_gm2calc()
+    src = open(os.path.join(REPO, 'test/test_points/problems_bino_reordering_pole_running.in')).read()
+    src = re.sub(r'(\n\s*1000024\s+)\S+', r'\g<1>9.00000000E+02', src)
+    bad = []
+    for fmt in range(5):
+        for lo in range(3):
+            outs = []
+            for vb in (0, 1):
+                t = re.sub(r'(Block GM2CalcConfig\s*\n)', r'\1', src, flags=re.I)
+                t += '\nBlock GM2CalcConfig\n 0 %d\n 1 %d\n 3 1\n 4 %d\n' % (fmt, lo, vb)
+                r = subprocess.run([exe, '--slha-input-file=-'], input=t, capture_output=True, text=True, timeout=120)
+                outs.append((r.returncode, [l for l in r.stdout.split('\n') if not re.match(r'\s*4\s+[01]\s*(#.*)?$', l)]))
+            if outs[0] != outs[1]:
+                d = [(a, b) for a, b in zip(outs[0][1], outs[1][1]) if a != b][:1]
+                bad.append('format %d loop order %d: verbose off/on -> exit %d/%d, first differing line %s' % (fmt, lo, outs[0][0], outs[1][0], d))
+    return bool(bad), '%d of 15 configurations differ between verbose off and on; %s' % (len(bad), ' || '.join(bad[:2]))
+
+@obligation('C15.verbose_noninterference', fns=[('src/MSSMNoFV/MSSMNoFV_onshell.cpp', 'MSSMNoFV_onshell::convert_Mu_M1_M2'), ('src/gm2calc.cpp', 'main')], replay=replay_verbose)
+def _(ctx):
+    """for EVERY function of src/ and include/: a statement guarded by the verbose flag (verbose_output, do_verbose_output(), options.verbose_output) is a block of VERBOSE(...) log
+    statements only -- no assignment, increment, control transfer (break/continue/return/throw) or call of a non-const member inside, and no else branch; so the flag changes the
+    std::cerr trace and nothing a reported number depends on"""
+    from gm2v import cxx
+    def mentions_verbose(e):
+        r = repr(e)
+        return 'verbose_output' in r
+    sites, bad, unknown = 0, [], []
+    def check_log(lg, fd):
+        toks = [getattr(t, 'text', None) or str(t) for t in lg.toks]
+        vals = [str(t).split(':', 1)[1].rsplit('@', 1)[0].strip("'") if ':' in str(t) else str(t) for t in lg.toks]
+        for i, v in enumerate(vals):
+            if v in ('=', '+=', '-=', '*=', '/=', '++', '--', '%=', '|=', '&=', '^=', '<<=', '>>='):
+                return 'assignment operator %s in the message' % v
+            if i + 1 < len(vals) and vals[i + 1] == '(' and str(lg.toks[i]).startswith('id:'):
+                name = v
+                if name in ('abs', 'sqrt', 'sqr', 'signed_sqr', 'signed_abs_sqrt', 'to_string', 'size', 'rows', 'cols', 'transpose', 'real', 'imag', 'norm', 'cwiseAbs', 'minCoeff', 'maxCoeff'):
+                    continue
+                cands = ctx.w.find(name)
+                cls = fd.cls
+                mine = [c for c in cands if c.cls is None or c.cls == cls or c.cls in ctx.w.bases(cls or '')] or cands
+                if not mine:
+                    # not a function of the library: a local object that is indexed (Eigen array) or a standard const accessor
+                    body = [str(t).split(':', 1)[1].rsplit('@', 1)[0].strip("'") if ':' in str(t) else str(t) for t in fd.body_toks]
+                    declared = any(body[j] == name and j > 0 and (body[j - 1] in ('>', '&', '*') or str(fd.body_toks[j - 1]).startswith('id:')) and body[j + 1] in ('(', '=', ';', '{')
+                                   and body[j - 1] not in ('return', '<<') for j in range(1, len(body) - 1))
+                    if declared or name in ('what', 'pretty_print'):
+                        continue
+                    unknown.append('%s: call of %s in a verbose message cannot be resolved' % (fd.qname, name))
+                elif any((c.cls is not None and not c.const and not c.static) or any(p.type.ref and not p.type.const for p in c.params) for c in mine):
+                    return 'call of non-const %s in the message' % name
+        return None
+    def only_logs(s, fd):
+        if s is None or isinstance(s, cxx.Empty):
+            return None
+        if isinstance(s, cxx.Block):
+            for x in s.stmts:
+                r = only_logs(x, fd)
+                if r:
+                    return r
+            return None
+        if isinstance(s, cxx.ExprStmt) and isinstance(s.e, cxx.Log):
+            if s.e.level != 'VERBOSE':
+                return '%s(...) inside a verbose guard' % s.e.level
+            return check_log(s.e, fd)
+        if isinstance(s, cxx.If):
+            # a nested selection among messages: condition without assignment or call, branches of log statements only
+            rc = repr(s.c)
+            if 'Assign(' in rc or 'Call(' in rc or "Postfix(" in rc or "op='++'" in rc or "op='--'" in rc:
+                return 'nested condition with an assignment or a call inside a verbose guard'
+            return only_logs(s.a, fd) or only_logs(s.b, fd)
+        return 'statement %s inside a verbose guard' % type(s).__name__
+    def walk(s, fd):
+        nonlocal sites
+        if isinstance(s, (list, tuple)):
+            for x in s:
+                walk(x, fd)
+            return
+        if isinstance(s, cxx.If) and mentions_verbose(s.c):
+            sites += 1
+            why = None
+            if not (isinstance(s.c, cxx.Id) or isinstance(s.c, cxx.Member) or isinstance(s.c, cxx.Call)):
+                why = 'compound condition %r' % (s.c,)
+            elif s.b is not None and not isinstance(s.b, cxx.Empty):
+                why = 'else branch of a verbose guard'
+            else:
+                why = only_logs(s.a, fd)
+            if why:
+                bad.append('%s (%s): %s' % (fd.qname, ctx.w.rel(fd.file), why))
+            return
+        if hasattr(s, '_fields'):
+            if not isinstance(s, (cxx.If,)) and mentions_verbose(s) and isinstance(s, (cxx.While, cxx.DoWhile, cxx.For, cxx.Cond, cxx.Switch)) and \
+               mentions_verbose(getattr(s, 'c', None) if not isinstance(s, cxx.Switch) else s.e):
+                bad.append('%s: verbose flag in the condition of a %s' % (fd.qname, type(s).__name__))
+            for f in s._fields:
+                v = getattr(s, f)
+                if isinstance(v, (list, tuple)) or hasattr(v, '_fields'):
+                    walk(v, fd)
+    nf = 0
+    for key, fds in sorted(ctx.w.funcs.items()):
+        for fd in fds:
+            if fd.body_toks is None or not any('verbose_output' in str(t) for t in fd.body_toks):
+                continue
+            # setters/getters of the flag and the option reader are not guards
+            nf += 1
+            try:
+                walk(ctx.w.body(fd), fd)
+            except cxx.ParseError as e:
+                unknown.append('%s: %s' % (fd.qname, e))
+    if sites < 10:
+        ctx.record('sites', ERROR, 'B', 0, 'only %d verbose guards found in %d functions (extraction)' % (sites, nf))
+        return
+    for u in unknown[:3]:
+        ctx.record('unresolved', ERROR, 'B', 0, u)
+    ctx.record('', PROVED if not bad else FAILED, 'B', 0, ('%d verbose guards in %d functions: each guards VERBOSE(...) statements only' % (sites, nf)) if not bad else
+               'the verbose flag interferes: ' + '; '.join(bad[:3]), solver='effect inference on the extracted statements', model={'sites': bad[:3]} if bad else None)
